@@ -36,5 +36,75 @@ out.append("%d of %d seeded changes are caught by the check of the property they
 out.append("")
 out.append("""**First-pass misses and what they led to.** The table shows the state after strengthening. When the first round (ids ending in -a/-b) arrived, these were *not* yet caught by the rules that existed and led to new clauses, not to special cases: C07-b → ORD-4 "no acknowledgement left queued on an error return"; C02-b → ORD-4 "a packet is kept for retry only after a durable record change"; C06-b → ORD-11 "a parked BigMessage is served, cleared or dropped on every path"; C11-a → TOK-12 (registry discipline); C11-b → ORD-6 "requests released after the write token was exchanged"; C12-a → ORD-8 "cancel before waiting for connSem"; C05-b was at first reported by ORD-2 for the wrong reason (an unrecognised comparison form) → comparisons are normalised and the clause "submitN advances only behind a nil write" was added; C10-b and C12-b were caught by rules that were not yet listed under their own property (TOK-1 added to C10, ORD-7 to C12). A second round (ids ending in -c/-d; each agent was told which changes were already taken for its property and asked for a different mechanism) produced 40 more. Not caught at first: C19-c (failure cleanup removes the final file) → ORD-9 "cleanup removes the spool file only"; C09-d (validator and encoder disagree on when the Will is enabled) → COD-7 guard agreement; C20-c (early return before the filter comparison) → MCK-1 "an expectation that was taken is compared"; C14-d (ReadBackoff case order) → ERR-5 converse clauses; C06-d (deadline re-armed only when the buffer is empty) → ORD-14 requires the buffered amount to cover the amount read; C10-c (progress baseline hoisted out of the retry loop) → ORD-13 clause for the payload retry; C04-d (marker saved for every non-PUBACK) → ORD-4 "marker Save only for PUBREC"; C11-c (callback removed but not answered) → TOK-13 "a removed callback is answered on every return"; C08-d (Ping returns another answer after its write failed) → ERR-7; C01-d/C05-d (volatile store keeps the caller's buffer) → OWN-9; C03-d (continuity test without the roll-over case) → ADP-8 sibling predicate; C16-d (gap test on the uncleaned list) → ADP-4 extended to every read after cleaning; C01-c, C02-d, C05-c, C06-c, C11-d, C12-c, C13-c, C16-c were caught by rules not yet listed under their own property (lists extended). The sub-agents also reported two genuine defects of the unchanged tree that they had to steer around (F17, F18; §5). A third round (ids ending in -e/-f) asked for *subtle* changes in the functions that had received least attention (an equivalent-looking condition that differs on one boundary value, a clean-up moved across a statement it depended on, an error path that returns the right error but skips one duty, two sites that must agree and no longer do). 15 of its 40 were not caught at first: C09-e (Will Retain bit outside the Will guard) → COD-7 flags-describe-the-payload; C09-f (`IndexByte(s,0) > 0`) → COD-13; C06-e (length guard moved to the loop head) → COD-4 exact loop evaluation; C18-f (deferred close watching the wrong `err`) → ORD-7 failure-closes-the-connection; C16-e (Max checks before the gaps are dropped) → ADP-5 final-list clause; C16-f and C02-f (`List` filter) → COD-10 listed under C02/C16; C14-f (`nonNilIsAny` stops at a nil Unwrap) → ERR-4 tree walk; C02-e and C03-f (accept count off by one / from the first PUBREL) → ADP-9; C10-e (ramp-up state unbounded) → ERR-5; C10-f (toOffline waits before it interrupts) → ORD-6/TOK-14; C04-f (stale parked BigMessage) → ORD-11 listed under C04/C07; C08-f (Disconnect swallows a closed-connection write error) → ERR-7 covers Disconnect; C07-f (handshake clears pendingAck) → OWN-3 no longer lets a known function inherit the ownership of its callers. A syntactic mutation sweep (`mutation/`, 1 982 mutants of the four source files; 830 pass the pinned suite) was then used to look for what no agent had thought of: 438 of the 830 were caught when the sweep was first run, 631 after the clauses it led to (the third-round list in §3); the 199 that remain were read one by one and are listed with the reason in `mutation/survivors.tsv` (no-ops, independent statement order, capacity hints, message texts, defaults and tuning, misuse checks of the doubles, checks that are dead under a proven invariant). The sweep was repeated on the repaired tree (fb09025: 1 984 mutants, 832 pass the suite, 645 caught, 199 survivors in the same categories, 187 after the clauses of the later rounds; the two mutants it showed to have been caught by accident before led to ADP-9 sorted-before-cleaned and PAN-5, §3). A fourth round (ids ending in -g/-h; asked for semantic rather than syntactic changes) and a fifth (ids ending in -i/-j; asked for defects that need two cooperating edits, state carried across API calls, or a boundary configuration) followed; what each led to is listed in §3. Of the fifth round 13 of 40 were not caught by their own property at first: C14-i (ErrSubmit tagging moved into the writers, the deadline failure left untagged) → ERR-1 per alternative; C15-i (rugged Load rejects a record "ahead of sequence") → COD-8 intact-served; C03-i (early return forgets the PUBREL list) → ADP-9 coverage needs the proof of emptiness; C06-j (BigMessage announced after less than a full buffer) → COD-4 Peek amount; C18-j (IsConnectionRefused by a list of named codes) → ERR-9; C09-j (ErrMax shortcut ahead of validation) → ORD-10 deny-before-validation; C08-i (second Put of the pooled buffer) → OWN-11; C20-i (mock edits the expectation slice in place) → MCK-8; C17-j (identifier counter stepped back) → TOK-12 counter clauses; C03-j, C05-i, C08-j, C14-j, C17-i were caught by rules not yet listed under their own property (lists extended). Of the sixth round (ids ending in -k/-l; declarations, synchronisation, rare branches, removed defensive checks) 21 of 40 were not caught by their own property at first: C03-l (sequence numbers kept as uint32) and C07-k (volatile map keyed by uint16) → COD-14; C04-k/C06-k (read buffer of 64 KiB) → COD-4 buffer size; C10-l (maximum raised before the minimum gets its default) → ERR-5 defaults on concrete pairs; C11-l (lockWrite without the ticker) → RCH-2; C13-k (errProtoReset wraps net.ErrClosed) → ERR-11; C16-l (cleanSequence takes the warnings by value) → ADP-8 warning reaches the caller; C18-k (refusal codes reordered) → ERR-9 wire values; C20-k (exchange goroutine shares the constructor's scratch variable) → MCK-9; C20-l (mock returns the expectation's slice) → MCK-8 returned slices; C09-l (pool release moved into publishPacket) → OWN-11 follows append and aggregates; C01-k, C01-l, C02-l, C05-l, C08-l, C09-k, C12-k, C13-l, C15-k, C16-k, C18-l were caught by rules not yet listed under their own property (lists extended). Of the seventh round (ids ending in -m/-n; boundary arithmetic, state-machine edges, resource lifecycle, API edges) 19 of 40 were not caught by their own property at first: C06-m (topic offset computed in uint16) → COD-14 narrow arithmetic; C10-n (Ping withdraws its callback with a blocking receive; masked by the known finding F7 under TOK-10's ordinal keys) → TOK-16; C12-m (connection dropped unclosed when Close lands during a dial that still succeeds) → ORD-7 unknown dial error; C15-n (rugged Save retries the delegate with a consumed value) → COD-8 one delegate Save; C04-n (ReadSlices after Close returns before the marker is saved) → ORD-4 ownership clause; C01-m, C02-n, C05-m, C05-n, C07-m, C07-n, C08-n, C09-n, C10-m, C11-n, C14-m, C16-n, C17-m, C17-n were caught by rules not yet listed under their own property (lists extended). The eighth round (ids ending in -o/-p) asked for feature-sized changes (15–60 lines: a cache, a retry, a fast path, a new option, state in a struct): all 40 were caught by some check at once and 34 by their own property; C15-p (record re-packed in a pooled buffer sized without the trailer) → COD-8 Save receives exactly the encoded value; C03-p, C05-o, C09-p, C10-o, C14-o were caught by rules not yet listed under their own property (lists extended). The ninth round (ids ending in -q/-r) asked for classic small slips (a shadowed `err`, the wrong one of two similar variables or constants, a duty skipped by an early return, a condition wrong on one boundary, the wrong slice in a loop); 14 of 40 were not caught by their own property at first: C05-r (DUP decided from the batch offset instead of the packet's sequence number) → ORD-2 per-iteration comparison; C08-q (resend composes its DUP copy in pendingAck) → OWN-12; C09-q (Config.valid returns before the Will checks) → COD-13 accepting paths; C10-r/C18-r (handshake arms the write deadline for its read) → ORD-14 direction, listed under C18; C14-r (Backoff matches *SubscribeError) → ERR-13; C16-q (List returns the parse error of the last stray name) → COD-10 returned error; C17-q (placeholder loop over the wrong list) → ADP-9 placeholders; C07-r (marker key parsed little-endian) → COD-11 big-endian, listed under C07; C20-q (exchange stub sends its own result variable) → MCK-6 entry clause; C03-r, C04-r, C13-r were caught by rules not yet listed under their own property (lists extended). A second, type-aware mutation sweep (`mutgen2`: same-type identifier, sibling constant, sibling field, exchanged arguments; 1 619 mutants, 734 pass the suite) ran alongside; what it led to is in §3 and `mutation/README.md`. The tenth round (ids ending in -s/-t) asked for values that flow to the wrong place while every type still fits (buffers and aliasing, the wrong duration or deadline, errors.Is/As and %v/%w, mask and wrap arithmetic, sibling constants and fields); 17 of 40 were not caught by their own property at first: C05-s (the buffer vector of an empty-payload PUBLISH shortened to one element with capacity two: the trailer of the rugged Save lands in the caller's array and the store's WriteTo wipes the packet before it is written) and C08-s (trailer appended to the last buffer, i.e. behind the caller's message) → OWN-13; C11-s/C13-s (writeTo clears with SetDeadline, which also clears the read deadline of the read routine) → RCH-3 direction clause; C16-s (the junction drops the PUBLISH list where the warning names the PUBREL list) → ADP-9 junction drop; C18-s (lockWrite's ticker replaced by a one-shot timer) → RCH-2 re-armed timer; C09-t (size refusal formatted with %v) → ERR-4 validators refuse with deny errors; C17-t (ErrMax wrapped with %v in Unsubscribe) → ERR-1 under C17; C01-s, C01-t, C02-t, C04-s, C10-s, C12-t, C14-s, C16-t, C18-t were caught by rules not yet listed under their own property (lists extended). The eleventh round (ids ending in -u/-v) asked for concurrency, lifecycle and bookkeeping slips (tokens and lock order, lost or added default arms, goroutine and resource lifecycle, callback queues, order of effects across a failure); 17 of 40 were not caught by their own property at first: C01-v (writeBuffersNoWait probes the write token and answers ErrDown when another goroutine holds it) → TOK-17; C11-v (ping slot with capacity two) → TOK-9 capacity clause; C19-v (a new package-level semaphore in fileSystem.Save, not released on one exit) → TOK-18; C03-u, C04-v, C11-u, C13-u, C16-u (five independent inversions of the lock order in connect, all caught by TOK-5), C07-v, C10-u, C12-u, C16-v, C02-v, C09-v, C13-v, C15-v, C17-v were caught by rules not yet listed under their own property (lists extended). The twelfth round (ids ending in -w/-x) asked each agent to break one sentence of a doc comment in a corner the tests do not reach; 19 of 40 were not caught by their own property at first: C01-w (handshake tests the client's configured CleanSession instead of the attempt's) → ORD-7 reads the attempt's Config; C18-w (password presence decided by length) → COD-7 nil-not-length; C03-x, C07-w, C07-x, C11-x caught by rules not yet listed under their own property; C09-x (newClient keeps a "private copy" of the password: an empty password becomes none) → OWN-14; C06-x (ReadAll reuses a client-level buffer) → OWN-12 fresh result; C15-x (fatal returns of AdoptSession drop the warnings) → ADP-8 every return carries them; C17-w (connect takes the sequence tokens before the dial: publishes block instead of getting ErrMax) → ORD-2 tokens behind the dial; C02-w, C10-w, C04-w, C04-x, C12-w, C14-x, C15-w, C17-x were caught by rules not yet listed under their own property (lists extended).""")
 out.append("")
+# Appendix C: rule index, from the sources and the recorded results
+import subprocess, collections
+titles={}
+for f in sorted(glob.glob('/verif/tool/internal/rules/*.go')):
+    for l in open(f):
+        mm=re.match(r'^// ---- ((?:[A-Z]+-\d+)(?:\s*/\s*[A-Z]+-\d+)*(?:/\d+)*)\s*:?\s*(.*?)\s*-*$', l)
+        if mm:
+            ids=re.findall(r'[A-Z]+-\d+', mm.group(1))
+            for rid in ids:
+                titles.setdefault(rid, mm.group(2).strip() or '(see §3)')
+# rules whose sources carry no title line of that form (their description is in §3)
+fallback={
+ "ADP-1":"the adopted client continues the storage sequence from the running maximum",
+ "ADP-2":"damaged records are deleted, warned about and not adopted; markers are not filed; the identifier record is left alone",
+ "ADP-3":"every listed key is integrity-checked",
+ "ADP-4":"counters and placeholders are computed from what cleanSequence returned",
+ "ADP-5":"the Max checks look at the cleaned lists",
+ "ADP-6":"which failures of adoption are fatal and which are warnings",
+ "ADP-7":"the wrap adjustments add exactly publishIDMask+1",
+ "ADP-8":"cleanSequence: gap ⇒ warn, drop the prefix, rescan; the warning reaches the caller",
+ "ADP-10":"the client identifier record is integrity-checked at adoption (known finding F21)",
+ "COD-5":"remaining-length encoders, the size that is tested is the size that is encoded, head bytes and identifier spaces",
+ "COD-6":"remaining length equals the bytes appended after it (symbolic, per option path and iteration)",
+ "COD-7":"CONNECT flags describe the payload; validator and encoder agree on when the Will is enabled",
+ "COD-9":"every record type and key space the Save sites use is classified at adoption",
+ "COD-10":"file name format and List filter agree; List's error and scan exit",
+ "COD-11":"the inbound marker key expressions agree (big-endian identifier | remoteIDKeyFlag)",
+ "MCK-1":"the publish and subscribe mocks report exactly the deviations",
+ "MCK-2":"expectation lists are indexed by an atomic counter; the cleanup reports what is left",
+ "MCK-3":"surplus calls are reported and answered without an expectation",
+ "MCK-4":"a double with a quit parameter answers ErrCanceled before anything else",
+ "MCK-5":"the ReadSlices stub hands out private copies",
+ "MCK-6":"the exchange stub plays its script: sends, blocks, close",
+ "ORD-4":"inbound QoS 1/2: the acknowledgement owed, the marker, duplicates, the flush at the next ReadSlices",
+ "OWN-1":"who may write to the wire",
+ "OWN-2":"who may set DUP and compose packets in place",
+ "OWN-3":"who may write the counters, pendingAck, readConn and the settings",
+ "OWN-4":"who may Save and Delete records",
+ "OWN-5":"who may close which channel",
+ "OWN-6":"the DUP copy keeps every other bit and byte of the stored packet",
+ "OWN-7":"read-routine state is reachable from the read routine only",
+ "PAN-1":"every bounds check the compiler cannot prove has a reasoned table row",
+ "TOK-1":"token balance per function and path, against verified summaries",
+ "TOK-2":"send to or close of a token channel only while holding it",
+ "TOK-3":"no use of a token channel after its close",
+ "TOK-4":"what goes back into writeSem and connSem",
+ "TOK-5":"the lock order graph is acyclic",
+ "TOK-6":"no blocking operation a held token's counterpart needs",
+ "TOK-8":"Online/Offline signals flip in pairs",
+ "TOK-16":"Ping withdraws its callback without waiting",
+}
+for k,v in fallback.items(): titles.setdefault(k,v)
+lst=subprocess.run(['/verif/bin/mqttverif','list'],capture_output=True,text=True).stdout
+props=collections.defaultdict(list)
+for l in lst.splitlines():
+    if ':' in l:
+        k,v=l.split(':',1)
+        for r in v.split(): props[r].append(k.strip())
+kills=collections.Counter()
+for m in glob.glob('/verif/seeded/*/meta.json'):
+    meta=json.load(open(m)); p=meta['breaks_property']
+    for r in {c.split('|')[0] for c in meta.get('caught_by',{}).get(p,[])}: kills[r]+=1
+out.append("## Appendix C — rule index\n")
+out.append("Generated from the rule sources (`tool/internal/rules`), `mqttverif list` and the recorded results: every rule, the one-line title its source carries, the properties whose check runs it, and the number of independently seeded changes (of %d) for which it is among the rules that fire under the change's own property. Rules without a title line in the sources are described in §3 under their family.\n"%n)
+out.append("| rule | title | run for | seeded changes it fires on |\n|---|---|---|---|")
+def key(r):
+    a,b=r.split('-'); return (a,int(b))
+for r in sorted(props, key=key):
+    out.append("| %s | %s | %s | %d |"%(r, titles.get(r,'(§3)').replace('|','/'), ' '.join(sorted(props[r])), kills[r]))
+out.append("")
 open(D,'w').write(head+"\n".join(out)+"\n")
 print(n,own)
